@@ -46,8 +46,14 @@ func (e *Env) c05ProcRunLoop() {
 	if g == nil {
 		return
 	}
+	// helpers that hand out the channel to wait on (a method of whatever type represents the started-task queue)
+	// are looked through: any module function that returns a channel
 	sy := e.P.NewSymbolizer(func(f *ssa.Function) bool {
-		return f.Signature.Recv() != nil && strings.HasSuffix(typeNameOf(f.Signature.Recv().Type()), "taskQueue")
+		if !e.P.IsRepo(f) || f.Signature.Results().Len() != 1 {
+			return false
+		}
+		_, isChan := f.Signature.Results().At(0).Type().Underlying().(*types.Chan)
+		return isChan
 	})
 	var sels []*core.Node
 	for _, n := range g.Nodes {
@@ -112,8 +118,18 @@ func (e *Env) c05ProcRunLoop() {
 		case *ssa.Call:
 			if n.IsBuiltin("len") {
 				// (the length test may sit in a predicate helper of the queue type)
-				s := sy.InCtx(n.Ctx, x.Call.Args[0]).String()
-				if strings.Contains(s, "recv(") && strings.Contains(s, "append(") {
+				// the started-task queue, whatever holds it (a loop-carried slice, a field of a queue object): the only
+				// []*Task in Process.Run's call tree
+				isQueue := false
+				if sl, ok := x.Call.Args[0].Type().Underlying().(*types.Slice); ok && isPtrToNamed(sl.Elem(), "Task") {
+					isQueue = true
+				}
+				// only a test that decides about leaving the scheduling loop counts (the same predicate helper may also
+				// be used elsewhere, e.g. when picking the channel to wait on)
+				if isQueue && !e.decidesLoopExit(g, n, sels[0]) {
+					isQueue = false
+				}
+				if isQueue {
 					nTests++
 					res := g.Run(core.Scenario{Start: n, Result: core.IntAV(1)})
 					if w := res.ReachesAvoiding(func(m *core.Node) bool { return m.Kind == core.KRootRet }, isSel); w != nil {
@@ -1025,4 +1041,28 @@ func branchTrace(g *core.XG, path []*core.Node) string {
 		out = out[len(out)-14:]
 	}
 	return strings.Join(out, " ")
+}
+
+// decidesLoopExit: the node n (lifted along its calling-context chain to the function of inLoop) sits in a block of
+// the loop around inLoop whose terminator has an edge that leaves that loop.
+func (e *Env) decidesLoopExit(g *core.XG, n, inLoop *core.Node) bool {
+	top := n
+	for top.Ctx != inLoop.Ctx && top.Ctx.CallNode != nil {
+		top = top.Ctx.CallNode
+	}
+	if top.Ctx != inLoop.Ctx || top.Instr == nil || inLoop.Instr == nil {
+		return false
+	}
+	for _, l := range core.LoopsOf(inLoop.Instr) {
+		b := top.Instr.Block()
+		if !l.Blocks[b] {
+			continue
+		}
+		for _, s := range b.Succs {
+			if !l.Blocks[s] {
+				return true
+			}
+		}
+	}
+	return false
 }
